@@ -345,6 +345,40 @@ def random_program(rng, thorough=False):
     interleave = rng.random() < 0.6  # build operations between compile and commit
     for _ in range(rng.randint(1, 5)):
         lv0 = [i for i, a in enumerate(alive) if a]
+        if outstanding == 0 and lv0 and rng.random() < 0.25:
+            # the SAME block (identical text: same operations, same template names) is built and
+            # compiled again in every round, each time with new values
+            names = []
+            steps = []
+            for _ in range(rng.randint(1, 4)):
+                k = rng.choice(["rot", "rot", "rot", "gate", "measreg"] + (["gate2"] if len(lv0) >= 2 and not cfg["transp"] else []))
+                if k == "gate":
+                    steps.append({"k": "gate", "h": rng.choice(lv0), "g": rng.randrange(7)})
+                elif k == "gate2":
+                    a, b = rng.sample(lv0, 2)
+                    steps.append({"k": "gate2", "h": a, "h2": b})
+                elif k == "measreg":
+                    # outcome into a register: no fresh array, the text stays the same
+                    steps.append({"k": "meas", "h": rng.choice(lv0), "mode": "reg", "inplace": True})
+                else:
+                    if names and rng.random() < 0.2:
+                        name = rng.choice(names)
+                    elif rng.random() < 0.9:
+                        name = pick_name(rng, tcount, names)
+                        tcount += 1
+                        names.append(name)
+                    else:
+                        name = None
+                    n = {"t": name} if name else rng.randrange(256)
+                    steps.append({"k": "rot", "h": rng.choice(lv0), "axis": rng.choice("XYZ"), "n": n,
+                                  "d": rng.randrange(0, 8)})
+            for _ in range(rng.randint(2, 3)):
+                events.extend(dict(st) for st in steps)
+                nmeas += sum(1 for st in steps if st["k"] == "meas")
+                events.append({"k": "compile", "vals": {nm: rng.choice([0, 1, 255, 16, rng.randrange(256)]) for nm in names},
+                               "same_block": True})
+                events.append({"k": "commit"})
+            continue
         if outstanding == 0 and lv0 and rng.random() < 0.3:
             # a re-usable block (only gates on live qubits), compiled once, instantiated per round
             names = []
